@@ -19,18 +19,28 @@
 #ifndef VP_V
 #define VP_V 6
 #endif
-#define VP_CAP (VP_K + VP_V + 32)
+#ifdef VP_LEM_FIELD
+#define VP_CAP (VP_K + VP_V + 8)
+#else
+#define VP_CAP (VP_V + 32)
+#endif
 #define REF_MAXLINES 6
 #define REF_MAXLINE VP_CAP
 #define REF_MAXV VP_CAP
 #define REF_MAXF 3
 #include "http_ref.h"
 
+/* -DVP_FIXED_LEN: the strings have exactly VP_K / VP_V bytes (the driver enumerates the lengths); otherwise
+ * the length is symbolic up to that bound */
 static size_t vp_bstr(unsigned char *buf, size_t max)
 {
 	size_t n, i;
 	vp_bytes(buf, max);
+#ifdef VP_FIXED_LEN
+	n = max;
+#else
 	n = (size_t)vp_range(0, max);
+#endif
 	for (i = 0; i < max; i++) {
 		if (i >= n) buf[i] = 0;
 		else __CPROVER_assume(buf[i] != 0);
@@ -72,11 +82,11 @@ void harness_lemma(void)
 	size_t kl = vp_bstr(key, VP_K), vl = vp_bstr(val, VP_V), i, b, e;
 	struct ref_hsection H;
 	int safe = ref_safe_field_name(key, kl) && ref_safe_field_value(val, vl);
-	puts_("HTTP/1.1 200 OK\r\n");
+	/* the header section alone (the start line in front of it is obligations lemma_status / lemma_request) */
 	put(key, kl); puts_(": "); put(val, vl); puts_("\r\n");
 	puts_("\r\n");
 	split_lines(0);
-	ref_header_section(ol + 1, oll + 1, nol ? nol - 1 : 0, &H);
+	ref_header_section(ol, oll, nol, &H);
 	if (safe) {
 		int same = 1;
 		VP_ASSERT(head_end == olen_, "C26 lemma: the head ends exactly at the CRLF CRLF the sender wrote");
@@ -94,17 +104,23 @@ void harness_lemma(void)
 			VP_ASSERT(H.f[0].value_len == e - b && same, "C26 lemma: field value derived == value supplied (OWS-trimmed)");
 			VP_WITNESS("plain safe field round-trips");
 		} else {
+#if VP_V >= 2
 			VP_WITNESS("folded safe field is still one field");
+#endif
 		}
 		/* strict recipient (only CRLF ends a line): nothing is added either */
 		split_lines(1);
-		ref_header_section(ol + 1, oll + 1, nol ? nol - 1 : 0, &H);
+		ref_header_section(ol, oll, nol, &H);
 		VP_ASSERT(head_end == olen_ && H.nfields <= 1 && (H.status == REF_H_DONE || H.status == REF_H_REJECT), "C26 lemma (CRLF-only recipient): at most the one field, head ends where the sender ended it");
 	} else {
 		/* tightness: unsafe components can be read as something else */
+#if VP_V >= 3
 		if (H.status == REF_H_DONE && H.nfields == 2) VP_WITNESS("unsafe value yields a second field");
 		if (head_end < olen_) VP_WITNESS("unsafe value ends the header section early");
+#endif
+#if VP_K >= 2
 		if (H.status == REF_H_DONE && H.nfields == 1 && H.f[0].name_len != kl) VP_WITNESS("unsafe name yields a different field name");
+#endif
 	}
 }
 #endif
